@@ -316,10 +316,11 @@ def sub_coq(sub, r):
         p = parse_cmd(cmd)
         if p is None:
             continue
-        acc = resp[i] == "ok" if i < len(resp) else None
-        if acc is None:
-            # the relay died before it answered: it had accepted the command if the panic came from a goroutine the command started
-            acc = True
+        # an answer that did not arrive in time (loaded machine) says nothing about acceptance: the command is left out
+        # of the comparison with the model (a crash of the child is judged separately)
+        if i >= len(resp) or resp[i] == "":
+            continue
+        acc = resp[i] == "ok"
         if p[0] == "agg":
             items.append("(PAgg %s %s %s, %s)" % (cbool(p[1]), cZ(p[2]), cZ(p[3]), cbool(acc)))
         else:
